@@ -1256,15 +1256,22 @@ let run_ligflow c =
     let undash k = let v = get c k in if v = [ "-" ] then [] else v in
     let coeffs = List.map f_of_str (undash "coeffs") in
     let rows = Ligero.lig_matrix fo (nn n_rows) (nn n_cols) coeffs in
-    let omega = f_of_str (str1 c "omega") and z = f_of_str (str1 c "pt") in
+    let omega = f_of_str (str1 c "omega") in
+    let z = if has c "scheme" && str1 c "scheme" = "ligero_ml" then tof Z.zero else f_of_str (str1 c "pt") in
     let cext = List.map (Ligero.encode fo omega (nn n_ext)) rows in
     let sqs pre = List.map (fun (_, b) -> List.map Z.of_string b) (indexed c (pre ^ "sq")) in
     let rtape pre = List.map f_of_str (undash (pre ^ "r")) in
     let idx_of pre = match CalcT.indices_of (Z.of_int n_ext) (sqs pre) with
       | Result.Ok l -> List.map (fun x -> nn (Z.to_int x)) l | _ -> [] in
-    let chk value pf pre = Ligero.l_check fo wf (nn n_rows) (nn n_cols) (nn n_ext) omega cext z value pf (rtape pre) (idx_of pre) in
+    let ml = has c "scheme" && str1 c "scheme" = "ligero_ml" in
+    let point = if ml then List.map f_of_str (undash "point_vec") else [] in
+    let chk value pf pre =
+      if ml then Ligero.l_check_ml fo wf (nn n_cols) (nn n_ext) omega cext point value pf (rtape pre) (idx_of pre)
+      else Ligero.l_check fo wf (nn n_rows) (nn n_cols) (nn n_ext) omega cext z value pf (rtape pre) (idx_of pre) in
     if has c "p.nsq" then begin
-      let op = Ligero.l_open fo wf (nn n_rows) (nn n_cols) (nn n_ext) omega rows z (rtape "p.") (idx_of "p.") in
+      let op =
+        if ml then Ligero.l_open_ml fo wf (nn n_cols) (nn n_ext) omega rows point (rtape "p.") (idx_of "p.")
+        else Ligero.l_open fo wf (nn n_rows) (nn n_cols) (nn n_ext) omega rows z (rtape "p.") (idx_of "p.") in
       obs1 "open" "S" (class_of op);
       match op with
       | Result.Ok pf ->
@@ -1273,7 +1280,8 @@ let run_ligflow c =
         obs "pf.leaf_idx" "N" (dash (List.map (fun p -> string_of_int (int_of_nat p.Ligero.lpt_index)) pf.Ligero.lf_paths));
         obs "pf.col_lens" "N" (dash (List.map (fun col -> string_of_int (List.length col)) pf.Ligero.lf_cols));
         obs "pf.cols" "F" (dash (List.concat_map fs_to pf.Ligero.lf_cols));
-        let (a, _b) = Ligero.tensor_uni fo z (nn n_cols) (nn n_rows) in
+        let a = if ml then (match Ligero.tensor_ml fo point (nn n_cols) with Result.Ok (a, _) -> a | _ -> [])
+          else fst (Ligero.tensor_uni fo z (nn n_cols) (nn n_rows)) in
         let value = Ligero.ip fo pf.Ligero.lf_v a in
         obs1 "value" "F" (f_to_str value);
         if has c "v.nsq" then begin
